@@ -3,7 +3,8 @@
 // text, for comparison with the extracted model (ocaml/geodriver.ml).
 //
 //   run_geo --vec  <cases>    one case per line: "<ty> <dim> <kind> <mask> values..."  (gen/geogen.py)
-//   run_geo --mesh <scripts>  kernel scripts ("#### name", "@AddV", "@AddFV ..", "Pos v x y z", "Q")
+//   run_geo --mesh <scripts>  kernel scripts ("#### name", "@AddV", "@AddFV ..", "Pos v x y z", "PosB v <bits>*3", "Q")
+//   run_geo --fvec / --fmesh  the same formats for the floating-point leg (see g_fleg below)
 //
 // Output lines "<lineno> <op> <values>" (vec) / the echo + query dump (mesh) are the correspondence.
 // Lines starting with "!O C19" are IMPL-SIDE ORACLE failures: the library result differs from the defining
@@ -58,6 +59,11 @@ template <> const char *tyname<double>() { return "d"; }
 
 static long g_line = 0;
 static long g_oracle_fails = 0;
+// floating-point leg (--fvec / --fmesh): the results are compared BIT FOR BIT with the Flocq model evaluated in Coq
+// (coq/Geo/FloatModel.v), on inputs that include signed zeros, subnormals, overflow, infinities and NaN; the
+// tolerance oracles below do not apply there (they are switched off) and the operations that --vec skips on a zero
+// divisor / zero vector are evaluated (x/0, 0/0 are defined in IEEE-754).
+static bool g_fleg = false;
 static void emit(const char *op, const std::string &val) { printf("%ld %s %s\n", g_line, op, val.c_str()); }
 
 // ------------------------------------------------------------------------------------ oracle helpers
@@ -71,6 +77,7 @@ template <class S, int D> bool same_vec(const VectorT<S, D> &a, const VectorT<S,
 }
 template <class S, int D>
 static void ofail(const char *op, const std::string &in, const std::string &got, const std::string &want, const std::string &extra = "") {
+    if (g_fleg) return;
     ++g_oracle_fails;
     printf("!O C19 op=%s ty=%s d=%d line=%ld in=[%s] got=[%s] want=[%s]%s\n", op, tyname<S>(), D, g_line, in.c_str(), got.c_str(), want.c_str(), extra.c_str());
 }
@@ -160,7 +167,7 @@ template <class S, int D> void run_unary(const std::string &mask, const std::vec
     }
     if (mask.find('d') != std::string::npos) {
         if constexpr (D == 4) {
-            if (a[3] != 0) {
+            if (g_fleg || a[3] != 0) {
                 auto h = a.homogenized();
                 V hv; for (int i = 0; i < 4; ++i) hv[i] = h[i];
                 emit("homogenized", showv(hv));
@@ -173,7 +180,7 @@ template <class S, int D> void run_unary(const std::string &mask, const std::vec
             V nc = a; nc.normalize_cond();
             emit("normalize_cond", showv(nc));
             if (zero) { if (!same_vec(nc, a)) ofail<S, D>("normalize_cond", in, showv(nc), showv(a)); }
-            if (!zero) {
+            if (!zero || g_fleg) {
                 V n1 = a.normalized(); V n2 = a; n2.normalize();
                 emit("normalized", showv(n1));
                 if (!same_vec(n1, n2)) ofail<S, D>("normalize", in, showv(n2), showv(n1));
@@ -260,7 +267,7 @@ template <class S, int D> void run_binary(const std::string &mask, const std::ve
     }
     if (mask.find('d') != std::string::npos) {
         bool nz = true; for (int i = 0; i < D; ++i) if (b[i] == 0) nz = false;
-        if (nz) {
+        if (nz || g_fleg) {
             V q1 = a / b, q2 = a; q2 /= b;
             emit("div", showv(q1));
             V w; for (int i = 0; i < D; ++i) w[i] = (S)(a[i] / b[i]);
@@ -287,7 +294,7 @@ template <class S, int D> void run_scalar(const std::string &mask, const std::ve
         V w; for (int i = 0; i < D; ++i) w[i] = (S)(a[i] * s);
         if (!same_vec(m1, w) || !same_vec(m2, w) || !same_vec(m3, w)) ofail<S, D>("smul", in, showv(m1) + " / " + showv(m2) + " / " + showv(m3), showv(w));
     }
-    if (mask.find('d') != std::string::npos && s != 0) {
+    if (mask.find('d') != std::string::npos && (g_fleg || s != 0)) {
         V q1 = a / s, q2 = a; q2 /= s;
         emit("sdiv", showv(q1));
         V w; for (int i = 0; i < D; ++i) w[i] = (S)(a[i] / s);
@@ -412,6 +419,7 @@ using Geometry::Vec3d;
 
 static std::string showd3(const Vec3d &v) { return showv(v); }
 static void mfail(const char *what, const std::string &where, const std::string &got, const std::string &want) {
+    if (g_fleg) return;
     ++g_oracle_fails;
     printf("!O C19 op=%s at=%s got=[%s] want=[%s]\n", what, where.c_str(), got.c_str(), want.c_str());
 }
@@ -553,6 +561,11 @@ static void run_script(const std::vector<std::string> &lines) {
             printf("== %d Pos %d %ld %ld %ld -> ", lineno, v, x, y, z);
             if (v < 0 || v >= (int)w.mesh.n_vertices()) printf("Rejected\n");
             else { w.mesh.set_vertex(VertexHandle(v), Vec3d((double)x, (double)y, (double)z)); printf("Ok -\n"); }
+        } else if (toks[0] == "PosB") {       // position given as three binary64 bit patterns "x<16 hex digits>"
+            int v = std::stoi(toks.at(1));
+            printf("== %d PosB %d %s %s %s -> ", lineno, v, toks.at(2).c_str(), toks.at(3).c_str(), toks.at(4).c_str());
+            if (v < 0 || v >= (int)w.mesh.n_vertices()) printf("Rejected\n");
+            else { w.mesh.set_vertex(VertexHandle(v), Vec3d(Sc<double>::parse(toks.at(2)), Sc<double>::parse(toks.at(3)), Sc<double>::parse(toks.at(4)))); printf("Ok -\n"); }
         } else if (toks[0] == "Q") {
             printf("== %d Q\n", lineno);
             query_dump(w);
@@ -597,6 +610,8 @@ static int run_mesh_file(const char *path) {
 int main(int argc, char **argv) {
     if (argc == 3 && !strcmp(argv[1], "--vec")) return run_vec_file(argv[2]);
     if (argc == 3 && !strcmp(argv[1], "--mesh")) return run_mesh_file(argv[2]);
-    fprintf(stderr, "usage: run_geo --vec <cases> | --mesh <scripts>\n");
+    if (argc == 3 && !strcmp(argv[1], "--fvec")) { g_fleg = true; return run_vec_file(argv[2]); }
+    if (argc == 3 && !strcmp(argv[1], "--fmesh")) { g_fleg = true; return run_mesh_file(argv[2]); }
+    fprintf(stderr, "usage: run_geo --vec <cases> | --mesh <scripts> | --fvec <cases> | --fmesh <scripts>\n");
     return 2;
 }
